@@ -161,13 +161,21 @@ class WatermarkPoolSink(PoolSink):
     Args:
       sink - An open sink.
     """
-    sink_stack, msg, stream, headers = self._waiters.popleft()
-    self._varz.queue_size(len(self._waiters))
-    # The stack has a QueuingChannelSink on the top now, pop it off
-    # and push the real stack back on.
-    orig_sink, ctx = sink_stack.Pop()
-    sink_stack.Push(orig_sink, sink)
-    sink.AsyncProcessRequest(sink_stack, msg, stream, headers)
+    while any(self._waiters):
+      sink_stack, msg, stream, headers = self._waiters.popleft()
+      self._varz.queue_size(len(self._waiters))
+      if not sink_stack.Any():
+        # The waiter already completed (e.g. it timed out while queued) and
+        # its stack has been drained; skip it and keep the sink.
+        continue
+      # The stack has a QueuingChannelSink on the top now, pop it off
+      # and push the real stack back on.
+      orig_sink, ctx = sink_stack.Pop()
+      sink_stack.Push(orig_sink, sink)
+      sink.AsyncProcessRequest(sink_stack, msg, stream, headers)
+      return
+    # No live waiter left, return the sink to the pool.
+    self._Release(sink)
 
   def Open(self):
     ar = AsyncResult()
